@@ -50,8 +50,6 @@ func main() {
 				dec := 0
 				if hook == "decorator.sub.before_out" {
 					dec = 1 + ci%2
-				} else if !a.Thorough() && ci != int(rng.Next()%3) {
-					continue // quick tier: one configuration per (hook, op) pair, chosen by the seed
 				}
 				sc := gc.Scenario{Buf: int(rng.Next() % 2), Persistent: cfg.p, Blocking: cfg.b, Seed: rng.Next(), ParkHook: hook, ParkOp: op,
 					Decorators: dec, SecondClose: true, LateOps: true,
